@@ -110,7 +110,15 @@ def conclude(prop, tier, seed, mod, cresults, obligations, wall, extra_info=None
     proved = by_status.get('proved', [])
     refuted = by_status.get('refuted', [])
     unknown = by_status.get('unknown', []) + by_status.get('error', []) + by_status.get(None, [])
-    vacuous = [o for o in covers if o.status == 'vacuous']
+    # a single infeasible path is harmless (the pruning solver is incomplete); a contract ALL of whose paths are
+    # contradictory proves nothing
+    vacuous = []
+    byc = {}
+    for o in covers:
+        byc.setdefault(o.fn, []).append(o)
+    for fnkey, cs in byc.items():
+        if cs and all(o.status == 'vacuous' for o in cs):
+            vacuous += cs
     for cr in cresults:
         if getattr(cr, 'vacuous_return', False) and cr.status == 'ok' and all(o.status == 'proved' for o in cr.obligations):
             cr.status, cr.reason = 'error', 'vacuous: no returning path and every raising path is justified (outcomes %s)' % cr.outcomes
@@ -238,6 +246,8 @@ def write_evidence(prop, tier, seed, mod, cresults, obligations, wall, rc, viola
                    canaries=getattr(cr, 'canary', {}), doc=(cr.contract.__doc__ or '').strip()[:300])
         if cr.reason:
             fnd['reason'] = cr.reason[:500]
+        if getattr(cr, 'also', None):
+            fnd['also_executed'] = [f.describe() for f in cr.also.values()]
         functions.append(fnd)
         axioms |= cr.axioms
         dropped |= cr.dropped
